@@ -21,6 +21,19 @@ MUTS = [
     ("C18", "c18", "src/naming/service_index.rs", "            for (namespace_id, service_index) in &self.namespace_group {\n                if param.namespace_privilege.check_permission(namespace_id) {", "            for (namespace_id, service_index) in &self.namespace_group {\n                if true {", "s18_2_query_service_page"),
     ("C07", "c07", "src/raft/filestore/raftdata.rs", "            ClientRequest::NamespaceReq(req) => {\n                self.namespace.do_send(req);", "            ClientRequest::NamespaceReq(req) => {\n                self.table.do_send(Default::default()); let _ = req;", "s07_NamespaceReq"),
     ("C14", "c14", "src/naming/cluster/model.rs", "self.len < 2 || (hash_value % self.len) == self.index", "self.len < 2 || (hash_value % self.len) <= self.index", "s14_n2"),
+    # obligations of rounds 9-11 (module entry points differ: "module:function")
+    ("C18", "c18sites", "src/console/v2/config_api.rs", "pub async fn remove_config(\n    req: HttpRequest,\n    web::Json(param): web::Json<ConfigParams>,\n    appdata: Data<Arc<AppShareData>>,\n) -> impl Responder {\n    let config_key = param.to_key();\n    let namespace_privilege = user_namespace_privilege!(req);\n    if !namespace_privilege.check_permission(&config_key.tenant) {",
+     "pub async fn remove_config(\n    req: HttpRequest,\n    web::Json(param): web::Json<ConfigParams>,\n    appdata: Data<Arc<AppShareData>>,\n) -> impl Responder {\n    let config_key = param.to_key();\n    let namespace_privilege = user_namespace_privilege!(req);\n    if false && !namespace_privilege.check_permission(&config_key.tenant) {", "s18_4_handler_call_sites"),
+    ("C04", "c04snap", "src/raft/filestore/raftsnapshot.rs", "for item in &self.snapshots[0..split_index] {", "for item in &self.snapshots[0..=split_index] {", "s04_4_snapshot_catalogue_crash_points"),
+    ("C11", "c11index", "src/naming/core.rs", "            if service.instance_size <= 0\n                && now - self.sys_config.service_time_out_millis", "            if service.healthy_instance_size <= 0\n                && now - self.sys_config.service_time_out_millis", "s11_3_service_index_and_cleanup"),
+    ("C19", "c19seq", "src/sequence/core.rs", "self.seq_map.insert(key.clone(), step + 1);", "self.seq_map.insert(key.clone(), step);", "s19_6_sequence_table"),
+    ("C01", "c01cfg", "src/config/model.rs", "value.histories.iter().last().map(|e| e.last_time)", "value.histories.first().map(|e| e.last_time)", "s01_5_config_snapshot_roundtrip"),
+    ("C08", "c08stream", "src/raft/filestore/core.rs", "                    .create(true)\n                    .truncate(true)\n", "                    .create(true)\n", "s08_3_snapshot_stream_file"),
+    ("C20", "c20big", "src/common/protobuf_utils.rs", "        message_buf[i - start] = message_buf[i];", "        message_buf[i - start] = message_buf[i - 1];", "s20_6_snapshot_reader_real_scale"),
+    ("C03", "c03files", "src/raft/filestore/raftlog/mod.rs", "                last_log.log_range.is_close = false;\n", "", "s03_3_file_selection"),
+    ("C02", "c03files:run_compaction", "src/raft/filestore/raftlog/mod.rs", "                item.log_range.split_off_index = split_off_index;\n", "", "s02_8_compaction_pointer_catalogue"),
+    ("C05", "c05store", "src/raft/filestore/core.rs", "            voted_for: hs.voted_for.unwrap_or_default(),", "            voted_for: if hs.current_term > 0 { hs.voted_for.unwrap_or_default() } else { 0 },", "s05_4_filestore_hard_state"),
+    ("C07", "c07cfg", "src/config/core.rs", "        if let Some(history_table_id) = param.history_table_id {\n            self.sequence.set_valid_last_id(history_table_id);\n        }\n", "", "s07_config_component_paths"),
 ]
 
 
@@ -39,7 +52,8 @@ def main():
             continue
         open(p, "w").write(s.replace(old, new, 1))
         env = dict(os.environ, VERIF_REPO=scratch)
-        r = subprocess.run([sys.executable, "-c", "import json,sys\nsys.path.insert(0,'/verif')\nimport rs2smt.%s as m\nr=m.run('quick',0)\nprint(json.dumps([(o['harness'],o.get('verdict'),str(o.get('message'))[:200]) for o in r['obligations']]))" % mod],
+        modname, fn = (mod.split(":") + ["run"])[:2]
+        r = subprocess.run([sys.executable, "-c", "import json,sys\nsys.path.insert(0,'/verif')\nimport rs2smt.%s as m\nr=m.%s('quick',0)\nr=r['obligations'] if isinstance(r,dict) and 'obligations' in r else (r if isinstance(r,list) else [r])\nprint(json.dumps([(o['harness'],o.get('verdict'),str(o.get('message'))[:200]) for o in r]))" % (modname, fn)],
                            env=env, capture_output=True, text=True, cwd="/verif")
         import json
         try:
